@@ -27,6 +27,10 @@ RT = 'dht::core_engine::KademliaRoutingTable'
 KB = 'dht::core_engine::KBucket'
 
 
+SEL_STORAGE = re.compile(r'TrustAwarePeerSelector::<.*>::select_storage_peers$|TrustAwarePeerSelector::select_storage_peers$')
+SEL_QUERY = re.compile(r'TrustAwarePeerSelector::<.*>::select_peers$|TrustAwarePeerSelector::select_peers$')
+
+
 def run(ctx):
     prog = ctx.prog
     prog.adt(LIV)
@@ -289,19 +293,35 @@ def run(ctx):
             op = L.agg_field_operand(s, 'storage_config')
             oknew = op is not None and nw.expr(op).mentions_call(r'TrustSelectionConfig::for_storage$') is not None
     ctx.ob('SELECTOR', 'storage-uses-storage-config', okc and oknew, ssp.where(), 'select_storage_peers passes self.storage_config (%s), which `new` sets to for_storage() (%s)' % (okc, oknew))
-    # engine side
-    for name, want in (('select_storage_peers', r'::select_storage_peers$'), ('select_query_peers', r'::select_peers$')):
-        b = prog.async_body(ENG + '::' + name)
-        ctx.touch(b, len(b.calls()))
-        sc = [c for c in b.calls(want) if 'TrustAwarePeerSelector' in c.callee]
-        fb = [c for c in b.calls(r'Iterator::take$|Iterator>::take$')]
-        okfb = bool(fb) and b.expr(fb[0].args[1]).strip().show() == 'count' and b.expr(fb[0].args[0]).mentions_call(r'::find_closest_nodes$') is not None
-        oksel = bool(sc) and b.expr(sc[0].args[3]).strip().show() == 'count' and b.expr(sc[0].args[2]).mentions_call(r'::find_closest_nodes$') is not None
-        ctx.ob('SELECTOR', 'engine:%s' % name, okfb and oksel, b.where(),
-               '%s: with a selector -> %s(key, find_closest_nodes(..), count): %s; without -> take(count) of the distance order: %s' % (name, want.strip(':$'), oksel, okfb))
+    # engine side, by role: the engine routine(s) that hand candidates to the selector's storage / query method
+    for name, want in (('select_storage_peers', SEL_STORAGE), ('select_query_peers', SEL_QUERY)):
+        found = False
+        for eb in prog.bodies.containing('TrustAwarePeerSelector'):
+            if not eb.root.startswith(ENG + '::'):
+                continue
+            b = prog.inl(eb.id, keep=r'TrustAwarePeerSelector|KademliaRoutingTable::find_closest_nodes$') if (not eb.parent or eb.is_coroutine) else eb
+            sc = [c for c in b.calls() if want.search(c.callee)]
+            if not sc:
+                continue
+            found = True
+            ctx.touch(b, len(b.calls()))
+            fb = [c for c in b.calls(r'Iterator::take$|Iterator>::take$')]
+            cnt_params = [i for i in range(1, prog.bodies[eb.root].argc + 1) if b.local_ty(i) == 'usize'] if eb.root in prog.bodies else []
+
+            def is_count(e):
+                st_ = e.strip()
+                return st_.show() == 'count' or (st_.k == 'param' and (st_.a in cnt_params or st_.b == 'count'))
+            okfb = bool(fb) and any(is_count(b.expr(f_.args[1])) and b.expr(f_.args[0]).mentions_call(r'::find_closest_nodes$') is not None for f_ in fb)
+            oksel = any(is_count(b.expr(c.args[3])) and b.expr(c.args[2]).mentions_call(r'::find_closest_nodes$') is not None for c in sc if len(c.args) > 3)
+            ctx.ob('SELECTOR', 'engine:%s' % name, okfb and oksel, b.where(),
+                   '%s: with a selector -> the selector method over (key, find_closest_nodes(..), count): %s; without -> take(count) of the distance order: %s' % (
+                       b.root.rsplit('::', 1)[-1], oksel, okfb))
+            break
+        if not found:
+            ctx.ob('SELECTOR', 'engine:%s' % name, False, 'src/dht/core_engine.rs', 'no engine routine hands candidates to the selector\'s %s method (anchor)' % ('storage' if 'storage' in name else 'query'))
     st = prog.async_body(ENG + '::store')
-    okst = bool([c for c in st.calls() if c.callee == ENG + '::select_storage_peers'])
-    ctx.ob('SELECTOR', 'engine:store-uses-storage-selection', okst, st.where(), 'DhtCoreEngine::store picks targets with select_storage_peers: %s' % okst)
+    okst = prog.reaches_call(st.root, lambda cs: bool(SEL_STORAGE.search(cs.callee)), depth=3)
+    ctx.ob('SELECTOR', 'engine:store-uses-storage-selection', okst, st.where(), 'DhtCoreEngine::store picks targets through the selector\'s storage method: %s' % okst)
     ctx.floor('SELECTOR', 8)
 
     # ---- 5. rank key must not be a lossy projection of the distance
